@@ -1125,6 +1125,7 @@ var generators = []struct {
 	{"secp256k1code", []string{"Secp256k1Code"}, genSecp256k1Code},
 	{"ed", []string{"Ed"}, genEd},
 	{"deps", []string{"Deps"}, genDeps},
+	{"addresscode", []string{"AddressCode"}, genAddressCode}, // stage 11 (loops_iface.go)
 }
 
 func leanStringLit(s string) string {
